@@ -463,7 +463,10 @@ class InProtocolBase(ProtocolMixin):
                 month = int(match.group('month'))
                 day = int(match.group('day'))
 
-                return date(year, month, day)
+                try:
+                    return date(year, month, day)
+                except ValueError:
+                    pass  # not a day of the calendar
 
             raise ValidationError(string)
 
@@ -547,10 +550,13 @@ class InProtocolBase(ProtocolMixin):
         except ValueError as e:
             match = cls._offset_re.match(string)
             if match:
-                return date(int(match.group('year')),
+                try:
+                    return date(int(match.group('year')),
                             int(match.group('month')), int(match.group('day')))
-            else:
-                raise ValidationError(string,
+                except ValueError as e2:
+                    e = e2  # not a day of the calendar
+
+            raise ValidationError(string,
                                          "%%r: %s" % repr(e).replace("%", "%%"))
 
     def date_from_unicode(self, cls, string):
@@ -565,10 +571,13 @@ class InProtocolBase(ProtocolMixin):
         except ValueError as e:
             match = cls._offset_re.match(string)
             if match:
-                return date(int(match.group('year')),
+                try:
+                    return date(int(match.group('year')),
                             int(match.group('month')), int(match.group('day')))
-            else:
-                raise ValidationError(string,
+                except ValueError as e2:
+                    e = e2  # not a day of the calendar
+
+            raise ValidationError(string,
                                          "%%r: %s" % repr(e).replace("%", "%%"))
 
     def duration_from_unicode(self, cls, string):
